@@ -71,6 +71,7 @@ def run(ctx, prop, focus, oracle, n_quick, n_thorough, rule, nontrivial=None, wa
         if "error" not in real and (nontrivial is None or nontrivial(case, real)):
             ctx.nontriv(json.dumps([case["argv"], case["reads1"]]))
         oracle(ctx, case, res, real)
+        repeat_oracle(ctx, case, real)
     for case, res, real, model in results[:3]:
         ctx.sample(dict(argv=case["argv"], reads=len(case["reads1"]), outcome=real.get("error", "ok")))
     if post:
@@ -145,8 +146,47 @@ def indexed_case(rng, extra=()):
             s_ = s_.lower()
         q = "".join(chr(33 + rng.choice([2, 10, 20, 30, 40])) for _ in s_)
         reads.append((f"r{i} 1:N:0:1", s_, q))
+    if rng.random() < 0.6:
+        # the same (exact or once-mutated) adapter copy at the anchored end of several reads of different lengths, the shortest first:
+        # what is found for one read must not depend on the reads seen before (per-index caches, memoised look-ups)
+        hot = list(rng.choice(seqs))
+        if rng.random() < 0.3:
+            hot[rng.randrange(len(hot))] = rng.choice("ACGTN")
+        hot = "".join(hot)
+        extra = []
+        for ln in sorted(rng.sample(range(0, 30), rng.randint(2, 4))):
+            body = "".join(rng.choice("ACGT") for _ in range(ln))
+            s_ = hot + body if front else body + hot
+            extra.append(s_)
+        if rng.random() < 0.5:
+            extra.append(extra[0])        # and one exact repetition of a whole read
+        base = len(reads)
+        for j, s_ in enumerate(extra):
+            q = "".join(chr(33 + rng.choice([2, 10, 20, 30, 40])) for _ in s_)
+            reads.append((f"r{base + j} 1:N:0:1", s_, q))
     return dict(argv=argv, paired=False, reads1=reads, reads2=None, with_qual=True, interleaved_in=False, indexed=True,
                 adapter_names=[f"a{i}" for i in range(k)])
+
+
+def repeat_oracle(ctx, case, real):
+    """reads with the same bases and qualities are treated alike, wherever they stand in the input: same output bases and qualities, same file
+    (single-end, names not used by any option)"""
+    if "error" in real or case["paired"] or any(o in case["argv"] for o in ("--rename", "-x", "-y", "--discard-casava", "--length-tag", "--strip-suffix")):
+        return
+    where = {}
+    for fn, side, recs in output_roles(case, real):
+        for r in recs:
+            where[rid(r[0])] = (fn, r[1], r[2])
+    seen = {}
+    for name, s_, q_ in case["reads1"]:
+        k = (s_, q_)
+        got = where.get(rid(name))
+        if k in seen and seen[k][1] != got:
+            ctx.failures.append(Failure(f"{ctx.prop}/result-depends-on-earlier-reads", "two reads with identical bases and qualities are processed differently "
+                                        "(result depends on the reads seen before)", case_input(case), dict(read=name, result=got),
+                                        dict(read=seen[k][0], result=seen[k][1])))
+        seen.setdefault(k, (name, got))
+    ctx.count("repeat-oracle-runs")
 
 
 def indexed_sweep(ctx, oracle, n_quick, n_thorough, extras, prep=None):
@@ -158,6 +198,7 @@ def indexed_sweep(ctx, oracle, n_quick, n_thorough, extras, prep=None):
             prep(case)
         res, real = pipe.run_real(case)
         ctx.count("indexed-run:" + real.get("error", "ok"))
+        repeat_oracle(ctx, case, real)
         if "error" not in real and real.get("with_adapters1", 0) > 0:
             ctx.nontriv("indexed:" + json.dumps([case["argv"], case["reads1"]]))
         oracle(ctx, case, res, real)
